@@ -9,7 +9,7 @@ package websocket
 //@   (c.decodeReset ==> 0 <= len(c.decodeFrame) && len(c.decodeFrame) <= c.src.ri - c.src.si)
 
 //@ func (*FrameCodec).resetDecode
-//@   prop C07
+//@   prop C07, C06
 //@   requires codecInv(c)
 //@   let drop = c.decodeReset ? len(c.decodeFrame) : 0
 //@   ensures [inv] codecInv(c) && !c.decodeReset
@@ -19,7 +19,7 @@ package websocket
 //@   ensures [saved] forall j :: 0 <= j && j < c.src.si ==> c.src.data[j] == old(c.src.data[j])
 
 //@ func (*FrameCodec).Decode
-//@   prop C07
+//@   prop C07, C06
 //@   requires codecInv(c) && src == c.src && c.maxMessageSize <= 1<<40 && cap(src.data) <= 1<<46
 //@   // the unconsumed stream U starts where the previously returned frame ends
 //@   let drop  = c.decodeReset ? len(c.decodeFrame) : 0
